@@ -50,9 +50,18 @@ func check(run *stats.Run, f stats.Failer, c Case) verdict {
 	text := rulesOnly.Source()
 	facts := baseFacts(run, f, c.Gen)
 
+	// The reference model comes first: a program whose model is not finite within the caps (only the
+	// structural minimiser produces such candidates, by removing an arithmetic guard) gets no verdict and is
+	// not handed to the engines, which would not return.
+	ref := prog.Eval(rulesOnly, facts, prog.Options{})
+	if ref.Capped {
+		run.Inconclusive()
+		v.labels = append(v.labels, "ref-capped")
+		return v
+	}
+	refOK := ref.Err == nil && ref.Unsafe == "" && !ref.Unstratifiable
 	if stats.Exclusion("K08-hash-colliders") {
 		// SimpleInMemoryStore (the only store the naive engine takes) conflates hash-equal atoms.
-		ref := prog.Eval(rulesOnly, facts, prog.Options{})
 		seen := map[string]map[uint64]bool{}
 		for _, fact := range ref.Model {
 			m := seen[fact.Pred]
@@ -86,6 +95,7 @@ func check(run *stats.Run, f stats.Failer, c Case) verdict {
 
 	var naiveErr, semiErr error
 	var naivePanic, semiPanic string
+	var semiOver *prog.Overrun
 	func() {
 		defer func() {
 			if r := recover(); r != nil {
@@ -97,15 +107,28 @@ func check(run *stats.Run, f stats.Failer, c Case) verdict {
 	func() {
 		defer func() {
 			if r := recover(); r != nil {
+				if o, ok := r.(prog.Overrun); ok {
+					semiOver = &o
+					return
+				}
 				semiPanic = fmt.Sprint(r)
 			}
 		}()
 		var info *analysis.ProgramInfo
 		info, semiErr = analysis.AnalyzeOneUnit(parse.SourceUnit{Clauses: unit.Clauses}, known)
 		if semiErr == nil {
-			semiErr = engine.EvalProgram(info, semiStore)
+			var target factstore.FactStore = semiStore
+			if refOK {
+				// more distinct facts than the finite reference model has = diverging or unsound; no wall clock
+				target = prog.Bounded(semiStore, len(ref.Model)+8)
+			}
+			semiErr = engine.EvalProgram(info, target)
 		}
 	}()
+	if semiOver != nil {
+		run.Failf(f, "the semi-naive evaluator added %d distinct facts although the reference model has only %d (diverging or unsound); aborted by the harness\nprogram:\n%sfacts: %s",
+			semiOver.Created, len(ref.Model), text, factsText(facts))
+	}
 	if naivePanic != "" {
 		run.Failf(f, "the naive evaluator panicked: %s\nprogram:\n%sfacts: %s", naivePanic, text, factsText(facts))
 	}
@@ -136,8 +159,7 @@ func check(run *stats.Run, f stats.Failer, c Case) verdict {
 	}
 	if len(onlyNaive) > 0 || len(onlySemi) > 0 {
 		hint := ""
-		ref := prog.Eval(rulesOnly, facts, prog.Options{})
-		if !ref.Capped && ref.Err == nil && ref.Unsafe == "" {
+		if refOK {
 			mn, en := prog.Diff(ref.Model, no.Facts)
 			ms, es := prog.Diff(ref.Model, so.Facts)
 			hint = fmt.Sprintf("\nagainst the reference model: naive missing %v extra %v; semi-naive missing %v extra %v", mn, en, ms, es)
